@@ -5,5 +5,5 @@ DocMode = FALSE
 Vocab <- VocabSelect
 TextKinds <- TK3
 OptSets <- Opts4
-INVARIANTS BuilderSound DesignRefines Emit
+INVARIANTS BuilderSound DesignRefines EmitQuarter
 CHECK_DEADLOCK FALSE
